@@ -1,5 +1,12 @@
 mod util;
 mod p_c13;
+mod p_c28;
+mod p_c30;
+mod p_c29;
+mod progs;
+mod p_c24;
+mod kzg_vectors;
+mod p_c23;
 mod p_c19;
 mod p_c15;
 mod p_c03;
@@ -20,11 +27,14 @@ mod p_c05;
 mod p_c27;
 mod p_c04;
 mod p_c06;
+mod p_c07;
 mod p_c34;
 use util::Opts;
 
 /// Finite tables read out of the compiled code (DESIGN.md 2.1).
 fn reflect_all(out: &std::path::Path) {
+    p_c28::reflect(out);
+    p_c23::reflect(out);
     p_c15::reflect(out);
     p_c03::reflect(out);
     p_c26::reflect(out);
@@ -50,6 +60,11 @@ fn main() {
     util::silence_panics();
     match a[1].as_str() {
         "c13" => p_c13::run(&o),
+        "c28" => p_c28::run(&o),
+        "c30" => p_c30::run(&o),
+        "c29" => p_c29::run(&o),
+        "c24" | "c24rs" => p_c24::run(&o),
+        "c23" => p_c23::run(&o),
         "c19" => p_c19::run(&o),
         "c15" => p_c15::run(&o),
         "c22" | "c22op" | "c22obr" => p_c22::run(&o),
@@ -70,6 +85,7 @@ fn main() {
         "c27" => p_c27::run(&o),
         "c04" => p_c04::run(&o),
         "c06" => p_c06::run(&o),
+        "c07" => p_c07::run(&o),
         "c34" => p_c34::run(&o),
         // `vh reflect --out DIR`: every reflector writes its coq/Gen/*.v tables into DIR
         "reflect" => { std::fs::create_dir_all(&o.out).unwrap(); reflect_all(&o.out); }
